@@ -14,6 +14,8 @@ func init() {
 			{Pkg: "wire", Entry: "VerifH13b", What: "cycle: CopyInResponse per column/format, payloads in order, exactly one E and one Z on abort, C Z on success, stray COPY messages ignored",
 				Quick: map[string]int{"K": 2, "N": 1}, Thorough: map[string]int{"K": 3, "N": 2},
 				Witnesses: []string{"copy-completed", "copy-aborted", "handler-stopped", "stray-copy-message"}},
+			{Pkg: "wire", Entry: "VerifH10i", What: "an oversized message (body made of well-formed messages, one of them a Query) arriving while a handler reads COPY data: skipped in full, nothing of it taken for a message, the COPY aborted with exactly one ErrorResponse and one ReadyForQuery, the query after it served",
+				Quick: map[string]int{}, Witnesses: []string{"oversized-copydata", "query-inside-the-oversized-body"}},
 			{Pkg: "wire", Entry: "VerifH13d", What: "binary COPY read through the library's row reader: whether the COPY ended well is decided by CopyDone / CopyFail / a non-COPY message, also when the data already carried its end-of-data trailer",
 				Quick: map[string]int{"TUPLES": 2}, Witnesses: []string{"completed", "copyfail-after-trailer"}},
 		},
